@@ -100,6 +100,7 @@ typedef struct kth_s {
   ldb_iter_t *iters[8];
   pthread_t handle;
   void *(*start)(void *); void *start_arg;
+  int in_get;              /* inside ldb_get: the lockwait perturbation applies to its first acquisition of db->mutex */
 } kth_t;
 
 #define MAXTH 64
@@ -224,6 +225,7 @@ static uint64_t last_logn = 0; static int last_bgs = 0; static const void *last_
 #define MAXBK 64
 static struct { char path[1300]; int tid, opid; } g_backups[MAXBK]; static int g_nbackups = 0;
 static int p_preload_mb = 0; /* before the run: this many MB are written into the log only, recovered into many level-0 tables by a reopen with the small write buffer, and the database is reopened once more (see main) */
+static int p_lockwait = 0;   /* usec: now and then a thread sleeps right BEFORE it takes db->mutex (a reader that captured something before locking holds it for that long) */
 static int p_poolwait = 0;   /* usec: every wait on a condition variable other than the DB's is preceded by a sleep (the waiter holds its mutex): widens the check-then-wait window of the thread pool */
 static int p_failsync = 0;   /* fault injection: the n-th fsync/fdatasync of a table file fails with EIO (0 = off) */
 static volatile long n_tsync = 0; static unsigned char g_istable[4096];
@@ -292,6 +294,9 @@ int __wrap_pthread_mutex_lock(pthread_mutex_t *m) {
   int r;
   if (!me || !g_on) return __real_pthread_mutex_lock(m);
   sched_point();
+  if (p_lockwait > 0 && IS_DB(m) && me->in_get == 1 && (rnd(&me->rng) % 2) == 0) {
+    struct timespec ts; me->in_get = 2; ts.tv_sec = 0; ts.tv_nsec = (long)p_lockwait * 1000L; nanosleep(&ts, NULL);
+  }
   me->obj = m; me->where = W_LOCK;
   r = __real_pthread_mutex_lock(m);
   me->where = W_RUN;
@@ -528,7 +533,9 @@ static void run_op(kth_t *t, int opid, char *line) {
     int snap = a[0][0] == 's'; const char *key = snap ? a[2] : a[1];
     ldb_slice_t ks = sl(key), val; int rc; ldb_readopt_t ro = *ldb_readopt_default;
     if (snap) ro.snapshot = t->snaps[atoi(a[1]) & 7];
+    t->in_get = snap ? 0 : 1;
     rc = ldb_get(g_db, &ks, &val, &ro);
+    t->in_get = 0;
     c = tick();
     sb_printf(h, "RET %d %d %ld ", t->tid, opid, c);
     if (rc == LDB_OK) { sb_value(h, val.data, val.size); ldb_free(val.data); }
@@ -701,6 +708,7 @@ static void parse_params(int argc, char **argv) {
     else if (!strcmp(argv[i], "reopen")) p_reopen = v;
     else if (!strcmp(argv[i], "failsync")) p_failsync = v;
     else if (!strcmp(argv[i], "poolwait")) p_poolwait = v;
+    else if (!strcmp(argv[i], "lockwait")) p_lockwait = v;
     else if (!strcmp(argv[i], "preload_mb")) p_preload_mb = v;
     else if (!strcmp(argv[i], "reuse_logs")) g_opt.reuse_logs = v;
     else if (!strcmp(argv[i], "dropsig")) p_dropsig = v;
